@@ -62,3 +62,108 @@ Qed.
 (* an unknown label is an error, never a value *)
 Theorem eval_unknown_label rho s : rho s = None -> eval rho (ELabel s) = Rejected.
 Proof. intros H. unfold eval. cbn. now rewrite H. Qed.
+
+(* ------------------------------------------------------------------------------------------ *)
+(* the parser's fuel always suffices: it never runs out, and consumes at least one token          *)
+
+Definition need (lvl : nat) (n : nat) : nat := (6 * n + (5 - Nat.min lvl 4))%nat.
+Definition loop_need (n : nat) : nat := (6 * n + 1)%nat.
+
+Lemma parse_fuel_ok : forall fuel,
+  (forall lvl ts, (need lvl (length ts) <= fuel)%nat ->
+      parse fuel lvl ts <> OutOfFuel /\
+      (forall e r, parse fuel lvl ts = Ok (e, r) -> (length r < length ts)%nat))
+  /\ (forall lvl lhs ts, (loop_need (length ts) <= fuel)%nat ->
+      ploop fuel lvl lhs ts <> OutOfFuel /\
+      (forall e r, ploop fuel lvl lhs ts = Ok (e, r) -> (length r <= length ts)%nat)).
+Proof.
+  induction fuel as [|f [IHp IHl]].
+  - split; intros; unfold need, loop_need in *; lia.
+  - split.
+    + (* parse *)
+      intros lvl ts Hf. cbn [parse].
+      destruct (lvl <? 4)%nat eqn:Elvl.
+      * apply Nat.ltb_lt in Elvl.
+        assert (Hn : (need (S lvl) (length ts) <= f)%nat) by (unfold need in *; lia).
+        destruct (IHp (S lvl) ts Hn) as [P1 P2].
+        destruct (parse f (S lvl) ts) as [[lhs r]| |] eqn:Ep; [|split; [discriminate | intros; discriminate] | now elim P1].
+        specialize (P2 lhs r eq_refl).
+        assert (Hl : (loop_need (length r) <= f)%nat) by (unfold need, loop_need in *; lia).
+        destruct (IHl lvl lhs r Hl) as [L1 L2].
+        split; [exact L1|]. intros e r' H. specialize (L2 e r' H). lia.
+      * apply Nat.ltb_ge in Elvl.
+        assert (Hf' : (6 * length ts + 1 <= S f)%nat) by (unfold need in Hf; lia).
+        destruct ts as [|t rest]; [split; [discriminate | intros; discriminate]|].
+        cbn [length] in *.
+        assert (N0 : (need 0 (length rest) <= f)%nat) by (unfold need; cbn; lia).
+        assert (N4 : (need 4 (length rest) <= f)%nat) by (unfold need; cbn; lia).
+        destruct t as [n|s|o| |i| |].
+        -- split; [discriminate|]. intros e r H; inversion H; subst; lia.
+        -- split; [discriminate|]. intros e r H; inversion H; subst; lia.
+        -- destruct o; try (split; [discriminate | intros; discriminate]).
+           destruct (IHp 4%nat rest N4) as [P1 P2].
+           destruct (parse f 4 rest) as [[e1 r1]| |] eqn:Ep; [|split; [discriminate | intros; discriminate] | now elim P1].
+           specialize (P2 e1 r1 eq_refl). split; [discriminate|]. intros e r H; inversion H; subst; lia.
+        -- destruct (IHp 0%nat rest N0) as [P1 P2].
+           destruct (parse f 0 rest) as [[e1 r1]| |] eqn:Ep; [|split; [discriminate | intros; discriminate] | now elim P1].
+           specialize (P2 e1 r1 eq_refl).
+           destruct r1 as [|t1 r2]; [split; [discriminate | intros; discriminate]|].
+           destruct t1; try (split; [discriminate | intros; discriminate]).
+           split; [discriminate|]. intros e r H; inversion H; subst; cbn [length] in *; lia.
+        -- destruct (IHp 0%nat rest N0) as [P1 P2].
+           destruct (parse f 0 rest) as [[e1 r1]| |] eqn:Ep; [|split; [discriminate | intros; discriminate] | now elim P1].
+           specialize (P2 e1 r1 eq_refl).
+           destruct r1 as [|t1 r2]; [split; [discriminate | intros; discriminate]|].
+           destruct t1; try (split; [discriminate | intros; discriminate]).
+           split; [discriminate|]. intros e r H; inversion H; subst; cbn [length] in *; lia.
+        -- destruct (IHp 0%nat rest N0) as [P1 P2].
+           destruct (parse f 0 rest) as [[e1 r1]| |] eqn:Ep; [|split; [discriminate | intros; discriminate] | now elim P1].
+           specialize (P2 e1 r1 eq_refl).
+           destruct r1 as [|t1 r2]; [split; [discriminate | intros; discriminate]|].
+           destruct t1; try (split; [discriminate | intros; discriminate]).
+           split; [discriminate|]. intros e r H; inversion H; subst; cbn [length] in *; lia.
+        -- split; [discriminate | intros; discriminate].
+    + (* ploop *)
+      intros lvl lhs ts Hf. cbn [ploop].
+      destruct ts as [|t rest]; [split; [discriminate|]; intros e r H; inversion H; subst; lia|].
+      destruct t as [n|s|o| |i| |]; try (split; [discriminate|]; intros e r H; inversion H; subst; lia).
+      destruct (Nat.eqb (level o) lvl); [|split; [discriminate|]; intros e r H; inversion H; subst; lia].
+      cbn [length] in Hf.
+      assert (Hn : (need (S lvl) (length rest) <= f)%nat) by (unfold need, loop_need in *; lia).
+      destruct (IHp (S lvl) rest Hn) as [P1 P2].
+      destruct (parse f (S lvl) rest) as [[rhs r1]| |] eqn:Ep; [|split; [discriminate | intros; discriminate] | now elim P1].
+      specialize (P2 rhs r1 eq_refl).
+      assert (Hl : (loop_need (length r1) <= f)%nat) by (unfold loop_need in *; lia).
+      destruct (IHl lvl (EBin o lhs rhs) r1 Hl) as [L1 L2].
+      split; [exact L1|]. intros e r H. specialize (L2 e r H). cbn [length]. lia.
+Qed.
+
+Theorem parse_tokens_never_out_of_fuel ts : parse_tokens ts <> OutOfFuel.
+Proof.
+  unfold parse_tokens, parse_fuel.
+  destruct (parse_fuel_ok (6 * length ts + 6)) as [Hp _].
+  destruct (Hp 0%nat ts ltac:(unfold need; cbn; lia)) as [P1 _].
+  destruct (parse (6 * length ts + 6) 0 ts) as [[e r]| |]; cbn [bind]; [|discriminate | now elim P1].
+  destruct r; discriminate.
+Qed.
+
+(* evaluation succeeds only if every label occurring in the expression resolves *)
+Fixpoint e_labels (e : expr) : list str :=
+  match e with
+  | ENum _ => [] | ELabel s => [s] | ENeg a => e_labels a | EFun _ a => e_labels a
+  | EBin _ a b => e_labels a ++ e_labels b
+  end.
+
+Theorem eval_ok_labels_resolved rho e v :
+  eval rho e = Ok v -> forall s, In s (e_labels e) -> rho s <> None.
+Proof.
+  unfold eval. destruct (compute rho e) as [q| |] eqn:Ec; cbn [bind]; try discriminate. intros _. clear v.
+  revert q Ec. induction e as [n|s|a IH|f a IH|o a IHa b IHb]; intros q Ec x Hin; cbn [e_labels] in Hin.
+  - contradiction.
+  - destruct Hin as [<-|[]]. cbn [compute] in Ec. destruct (rho s); [discriminate | discriminate].
+  - cbn [compute] in Ec. destruct (compute rho a) as [qa| |] eqn:Ea; cbn [bind] in Ec; try discriminate. eapply IH; eauto.
+  - cbn [compute] in Ec. destruct (compute rho a) as [qa| |] eqn:Ea; cbn [bind] in Ec; try discriminate. eapply IH; eauto.
+  - cbn [compute] in Ec. destruct (compute rho a) as [qa| |] eqn:Ea; cbn [bind] in Ec; try discriminate.
+    destruct (compute rho b) as [qb| |] eqn:Eb; cbn [bind] in Ec; try discriminate.
+    apply in_app_or in Hin as [Hin|Hin]; [eapply IHa | eapply IHb]; eauto.
+Qed.
